@@ -640,6 +640,9 @@ class C17Engine(Engine):
                                                          "aa_depth": cfg.choice([0, 1])}}
         if ls != "direct" and cfg.random() < 0.5:
             sources["w1opts"]["amg_levels"] = True
+        if ls != "direct" and cfg.random() < 0.35:
+            # relaxation-type coarse solvers are built lazily by pyamg, in the solve phase (they draw random numbers there)
+            sources["w1opts"]["vals"]["amg_options"]["coarse_solver"] = cfg.choice(["jacobi", "richardson", "block_jacobi"])
         if cfg.random() < 0.25:
             for sp in sources.values():
                 if sp["kind"] == "image":
